@@ -1,14 +1,16 @@
 // Kuznyechik, kuznyechik_backend="soft" (big_soft back end: 64 KiB fused tables read as [[u128; 256]; 16]): conformance to
 // GOST R 34.12-2015 (C07), conversion routes and clones (C12), back-end independence via the common oracle (C03), round
-// trips (C01), no panic / overflow / out-of-bounds table read (C20).  Mirrors sse2.rs; see kz_common.rs for the W shape.
+// trips (C01), 3-wide encrypt_par_blocks (C04), no panic / overflow / out-of-bounds table read (C20).
+// Mirrors sse2.rs; see kz_common.rs for the W shape and for what is abstracted.
 //
 // Leaves: `transform(b: u128, &ENC_TABLE)` (= L S), `transform(b, &DEC_TABLE)` (= L^-1 S^-1), `sub_bytes(b: u128, sbox)`.
-// L: rows of the tables read exactly as transform reads them (pointer cast to [[u128; 256]; 16]) vs the oracle
-//    (kuz_soft_leaf_rows); transform on every word with ONE arbitrary octet and fifteen zero octets vs L S of the oracle
-//    (kuz_soft_leaf_transform_pos: which table, which row, which lane, XOR accumulation); the general 128-bit statement
-//    then follows from the loop having no cross-octet data flow (one `res ^= table[i][block[i]]` per octet) and the
-//    linearity of L (kz_common::kuz_lin_l).  The 128-bit query itself needs sixteen symbolic-index 128-bit reads of a
-//    constant 64 KiB array and does not fit in memory (measured on the sse2 twin: > 24 GB).
+// L: sub_bytes directly (kuz_soft_leaf_sub_bytes); rows of the tables read exactly as transform reads them (pointer cast to
+//    [[u128; 256]; 16]) vs the oracle (kuz_soft_leaf_rows); transform on every word with ONE arbitrary octet at a fixed
+//    position and fifteen zero octets vs L S / L^-1 S^-1 of the oracle (kuz_soft_leaf_tf_*: which table, which row, which
+//    lane, XOR accumulation); the general 128-bit statement then follows from the loop having no cross-octet data flow (one
+//    `res ^= table[i][block[i]]` per octet) and the linearity of L / L^-1 (kz_common::kuz_lin_l / kuz_lin_linv).  The 128-bit
+//    query itself needs sixteen symbolic-index 128-bit reads of a constant 64 KiB array and does not fit in memory
+//    (measured on the sse2 twin: > 24 GB).
 use super::kz_common::{self as k, Route};
 use super::prelude::*;
 use crate::big_soft::backends::{sub_bytes, transform};
@@ -38,10 +40,17 @@ pub fn stub_sub_bytes(block: u128, sbox: &[u8; 256]) -> u128 {
         u128::from_le_bytes(k::usi(&x))
     }
 }
+/// key schedule harness: transform(., &ENC_TABLE) := the single uninterpreted function LS (no other use of transform there)
+pub fn stub_transform_ls(block: u128, table: &Table) -> u128 {
+    #[cfg(kani)]
+    kani::assert(core::ptr::eq(table, &ENC_TABLE), "VERIF_STUB_TABLE");
+    let _ = table;
+    u128::from_le_bytes(k::uls1(&block.to_le_bytes()))
+}
 
 // ---------------------------------------------------------------------------------------------------------- leaves
 
-//@ harness name=kuz_soft_leaf_consts prop=C07,C20 tier=thorough bits=16 est=60 desc="L: P[x] == pi(x), P_INV[x] == pi^-1(x) for all octets x; KEYGEN[i] == C_{i+1} = L(Vec128(i+1)) for symbolic i in 0..32"
+//@ harness name=kuz_soft_leaf_consts prop=C07,C20 tier=quick bits=16 est=45 desc="L: P[x] == pi(x), P_INV[x] == pi^-1(x), pi^-1(pi(x)) == x == pi(pi^-1(x)) for all octets x; KEYGEN[i] == C_{i+1} = L(Vec128(i+1)) for symbolic i in 0..32 (field arithmetic of the oracle computed)"
 verif_harness! {
     name: kuz_soft_leaf_consts,
     bytes: 2,
@@ -49,12 +58,13 @@ verif_harness! {
     prop: |inp| {
         let x = inp[0] as usize;
         vcheck!(P[x] == r::PI[x] && P_INV[x] == r::PI_INV[x]);
+        vcheck!(r::PI_INV[r::PI[x] as usize] as usize == x && r::PI[r::PI_INV[x] as usize] as usize == x);
         let i = (inp[1] & 31) as usize;
         Some(KEYGEN[i].0 == r::c(i + 1))
     }
 }
 
-//@ harness name=kuz_soft_leaf_sub_bytes prop=C07,C20 tier=thorough bits=128 est=30 desc="L: sub_bytes(b, &P) == oracle S(b) and sub_bytes(b, &P_INV) == oracle S^-1(b) for all 2^128 b (u128 little-endian view)"
+//@ harness name=kuz_soft_leaf_sub_bytes prop=C07,C20 tier=quick bits=128 est=30 desc="L: sub_bytes(b, &P) == oracle S(b) and sub_bytes(b, &P_INV) == oracle S^-1(b) for all 2^128 b (u128 little-endian view)"
 verif_harness! {
     name: kuz_soft_leaf_sub_bytes,
     bytes: 16,
@@ -88,56 +98,22 @@ verif_harness! {
     }
 }
 
-//@ harness name=kuz_soft_leaf_transform_pos prop=C07,C20 tier=thorough bits=9 est=2000 cap=7200 desc="L: transform on every word with one arbitrary octet v at position p (p = 0..15 in turn) and zero elsewhere, both tables: == oracle L(S(.)) resp. L^-1(S^-1(.)) -- table, row, lane and XOR accumulation of every loop iteration"
-verif_harness! {
-    name: kuz_soft_leaf_transform_pos,
-    bytes: 2,
-    unwind: 20,
-    prop: |inp| {
-        let v = inp[0];
-        let dec = inp[1] & 1 == 1;
-        let mut p = 0;
-        while p < 16 {
-            let mut b = [0u8; 16];
-            b[p] = v;
-            if dec {
-                vcheck!(transform(u128::from_le_bytes(b), &DEC_TABLE).to_le_bytes() == r::l_inv(&r::s_inv(&b)));
-            } else {
-                vcheck!(transform(u128::from_le_bytes(b), &ENC_TABLE).to_le_bytes() == r::ls(&b));
-            }
-            p += 1;
-        }
-        Some(true)
-    }
-}
+// ---------------------------------------------------------------------------------------------------------- key schedule
 
-// ---------------------------------------------------------------------------------------------------------- wiring: encryption
-
-//@ harness name=kuz_soft_keys prop=C07,C20 tier=thorough bits=256 stub=1 est=120 mem=30 cap=3600 desc="W: round keys of KuznyechikEnc::new(key) (big_soft expand_enc_keys) == oracle K1..K10 (Feistel key schedule with C_1..C_32), all 2^256 keys"
+//@ harness name=kuz_soft_keys prop=C07,C20 tier=quick bits=256 stub=1 est=120 desc="W: round keys of KuznyechikEnc::new(key) (big_soft expand_enc_keys) == oracle K1..K10 (Feistel key schedule with the computed C_1..C_32) for all 2^256 keys; transform(., &ENC_TABLE) and the oracle's L S are ONE uninterpreted function (32 applications per side)"
 verif_harness! {
     name: kuz_soft_keys,
     bytes: 32,
     unwind: 70,
-    stubs: [(crate::big_soft::backends::transform, stub_transform), (crate::big_soft::backends::sub_bytes, stub_sub_bytes)],
+    stubs: [(crate::big_soft::backends::transform, stub_transform_ls), (refmodels::kuznyechik::c, k::stub_c)],
     prop: |inp| { k::w_keys(inp) }
 }
-//@ harness name=kuz_soft_enc_key prop=C07,C03,C12,C20 tier=thorough bits=384 stub=1 est=200 mem=30 cap=3600 desc="W: KuznyechikEnc::new(key).encrypt_block(b) == oracle E(key schedule(key), b), all keys, all blocks"
-verif_harness! {
-    name: kuz_soft_enc_key,
-    bytes: 48,
-    unwind: 70,
-    stubs: [(crate::big_soft::backends::transform, stub_transform), (crate::big_soft::backends::sub_bytes, stub_sub_bytes)],
-    prop: |inp| { k::w_enc_key(inp, 0) }
-}
-//@ harness name=kuz_soft_enc_key_both prop=C07,C03,C12,C20 tier=thorough bits=384 stub=1 est=200 mem=30 cap=3600 desc="W: Kuznyechik::new(key).encrypt_block(b) == oracle E(key schedule(key), b), all keys, all blocks"
-verif_harness! {
-    name: kuz_soft_enc_key_both,
-    bytes: 48,
-    unwind: 70,
-    stubs: [(crate::big_soft::backends::transform, stub_transform), (crate::big_soft::backends::sub_bytes, stub_sub_bytes)],
-    prop: |inp| { k::w_enc_key(inp, 1) }
-}
-//@ harness name=kuz_soft_enc_rk prop=C07,C03,C12,C20 tier=thorough bits=1408 stub=1 est=60 desc="W: KuznyechikEnc over arbitrary round keys: encrypt_block == oracle E (9 LSX rounds + X), all round keys, all blocks"
+
+// ---------------------------------------------------------------------------------------------------------- wiring: encryption
+// transform / sub_bytes := S, L uninterpreted inverse pairs (kz_common); arbitrary round keys (a superset of the key schedule's
+// outputs): with kuz_soft_keys this is conformance for all keys.
+
+//@ harness name=kuz_soft_enc_rk prop=C07,C03,C12,C20 tier=quick bits=1408 stub=1 est=60 desc="W: KuznyechikEnc over arbitrary round keys: encrypt_block == oracle E (9 LSX rounds + X), all round keys, all blocks"
 verif_harness! {
     name: kuz_soft_enc_rk,
     bytes: 160 + 16,
@@ -153,7 +129,7 @@ verif_harness! {
     stubs: [(crate::big_soft::backends::transform, stub_transform), (crate::big_soft::backends::sub_bytes, stub_sub_bytes)],
     prop: |inp| { k::w_enc_rk(inp, Route::EncClone) }
 }
-//@ harness name=kuz_soft_enc_rk_val prop=C12,C03,C20 tier=thorough bits=1408 stub=1 est=60 desc="W: Kuznyechik::from(enc) (by value): encrypt_block == oracle E, all round keys, all blocks"
+//@ harness name=kuz_soft_enc_rk_val prop=C12,C03,C20 tier=thorough bits=1408 stub=1 est=60 desc="W: Kuznyechik::from(enc) (by value; runs the real inv_enc_keys too): encrypt_block == oracle E, all round keys, all blocks"
 verif_harness! {
     name: kuz_soft_enc_rk_val,
     bytes: 160 + 16,
@@ -161,21 +137,13 @@ verif_harness! {
     stubs: [(crate::big_soft::backends::transform, stub_transform), (crate::big_soft::backends::sub_bytes, stub_sub_bytes)],
     prop: |inp| { k::w_enc_rk(inp, Route::Val) }
 }
-//@ harness name=kuz_soft_enc_rk_ref prop=C12,C03,C20 tier=thorough bits=1408 stub=1 est=60 desc="W: Kuznyechik::from(&enc) (by reference): encrypt_block == oracle E, all round keys, all blocks"
+//@ harness name=kuz_soft_enc_rk_ref prop=C12,C03,C20 tier=quick bits=1408 stub=1 est=60 desc="W: Kuznyechik::from(&enc) (by reference): encrypt_block == oracle E, all round keys, all blocks"
 verif_harness! {
     name: kuz_soft_enc_rk_ref,
     bytes: 160 + 16,
     unwind: 70,
     stubs: [(crate::big_soft::backends::transform, stub_transform), (crate::big_soft::backends::sub_bytes, stub_sub_bytes)],
     prop: |inp| { k::w_enc_rk(inp, Route::Ref) }
-}
-//@ harness name=kuz_soft_enc_rk_valclone prop=C12,C20 tier=thorough bits=1408 stub=1 est=60 desc="W: Kuznyechik::from(enc).clone(): encrypt_block == oracle E, all round keys, all blocks"
-verif_harness! {
-    name: kuz_soft_enc_rk_valclone,
-    bytes: 160 + 16,
-    unwind: 70,
-    stubs: [(crate::big_soft::backends::transform, stub_transform), (crate::big_soft::backends::sub_bytes, stub_sub_bytes)],
-    prop: |inp| { k::w_enc_rk(inp, Route::ValClone) }
 }
 //@ harness name=kuz_soft_enc_rk_refclone prop=C12,C20 tier=thorough bits=1408 stub=1 est=60 desc="W: Kuznyechik::from(&enc).clone(): encrypt_block == oracle E, all round keys, all blocks"
 verif_harness! {
@@ -186,9 +154,29 @@ verif_harness! {
     prop: |inp| { k::w_enc_rk(inp, Route::RefClone) }
 }
 
-// ---------------------------------------------------------------------------------------------------------- wiring: decryption
+//@ harness name=kuz_soft_par3 prop=C04,C20 tier=quick bits=1664 stub=1 est=100 desc="W: KuznyechikEnc::encrypt_blocks on 3 blocks (exactly one 3-wide encrypt_par_blocks batch of the big_soft back end) == three encrypt_block calls on the same instance, all three output blocks; arbitrary round keys, all block contents"
+verif_harness! {
+    name: kuz_soft_par3,
+    bytes: 160 + 48,
+    unwind: 70,
+    stubs: [(crate::big_soft::backends::transform, stub_transform), (crate::big_soft::backends::sub_bytes, stub_sub_bytes)],
+    prop: |inp| { k::w_par_enc::<3>(inp) }
+}
+//@ harness name=kuz_soft_par4 prop=C04,C20 tier=thorough bits=1792 stub=1 est=150 desc="W: KuznyechikEnc::encrypt_blocks on 4 blocks (one 3-wide batch + a tail of one) == four encrypt_block calls; arbitrary round keys, all block contents"
+verif_harness! {
+    name: kuz_soft_par4,
+    bytes: 160 + 64,
+    unwind: 70,
+    stubs: [(crate::big_soft::backends::transform, stub_transform), (crate::big_soft::backends::sub_bytes, stub_sub_bytes)],
+    prop: |inp| { k::w_par_enc::<4>(inp) }
+}
 
-//@ harness name=kuz_soft_dec_rk_val prop=C07,C03,C12,C20 tier=thorough bits=1408 stub=1 est=200 desc="W: KuznyechikDec::from(enc) (by value, real inv_enc_keys) over arbitrary encryption round keys: decrypt_block == oracle D = X[K1] S^-1 L^-1 X[K2] ... S^-1 L^-1 X[K10], all round keys, all blocks (linearity instances of L^-1 assumed, lemma kuz_lin_linv)"
+// ---------------------------------------------------------------------------------------------------------- wiring: decryption
+// Decryption keys come from the REAL inv_enc_keys applied to arbitrary encryption round keys (through the real From
+// conversions); the result must be the standard's D over the encryption round keys.  Assumed: the eight instances of the
+// linearity of L^-1 that the pre-transformed keys rely on (kz_common::lin_instances, lemma kuz_lin_linv).
+
+//@ harness name=kuz_soft_dec_rk_val prop=C07,C03,C12,C20 tier=quick bits=1408 stub=1 est=250 desc="W: KuznyechikDec::from(enc) (by value, real inv_enc_keys) over arbitrary encryption round keys: decrypt_block == oracle D = X[K1] S^-1 L^-1 X[K2] ... S^-1 L^-1 X[K10], all round keys, all blocks (linearity instances of L^-1 assumed, lemma kuz_lin_linv)"
 verif_harness! {
     name: kuz_soft_dec_rk_val,
     bytes: 160 + 16,
@@ -196,7 +184,7 @@ verif_harness! {
     stubs: [(crate::big_soft::backends::transform, stub_transform), (crate::big_soft::backends::sub_bytes, stub_sub_bytes)],
     prop: |inp| { k::w_dec_rk(inp, Route::Val, false, true) }
 }
-//@ harness name=kuz_soft_dec_rk_ref prop=C07,C03,C12,C20 tier=thorough bits=1408 stub=1 est=200 desc="W: KuznyechikDec::from(&enc) (by reference): decrypt_block == oracle D, all round keys, all blocks"
+//@ harness name=kuz_soft_dec_rk_ref prop=C07,C03,C12,C20 tier=quick bits=1408 stub=1 est=250 desc="W: KuznyechikDec::from(&enc) (by reference): decrypt_block == oracle D, all round keys, all blocks (linearity instances of L^-1 assumed)"
 verif_harness! {
     name: kuz_soft_dec_rk_ref,
     bytes: 160 + 16,
@@ -204,15 +192,7 @@ verif_harness! {
     stubs: [(crate::big_soft::backends::transform, stub_transform), (crate::big_soft::backends::sub_bytes, stub_sub_bytes)],
     prop: |inp| { k::w_dec_rk(inp, Route::Ref, false, true) }
 }
-//@ harness name=kuz_soft_dec_rk_valclone prop=C12,C20 tier=thorough bits=1408 stub=1 est=200 desc="W: KuznyechikDec::from(enc).clone(): decrypt_block == oracle D, all round keys, all blocks"
-verif_harness! {
-    name: kuz_soft_dec_rk_valclone,
-    bytes: 160 + 16,
-    unwind: 70,
-    stubs: [(crate::big_soft::backends::transform, stub_transform), (crate::big_soft::backends::sub_bytes, stub_sub_bytes)],
-    prop: |inp| { k::w_dec_rk(inp, Route::ValClone, false, true) }
-}
-//@ harness name=kuz_soft_dec_rk_refclone prop=C12,C20 tier=thorough bits=1408 stub=1 est=200 desc="W: KuznyechikDec::from(&enc).clone(): decrypt_block == oracle D, all round keys, all blocks"
+//@ harness name=kuz_soft_dec_rk_refclone prop=C12,C20 tier=thorough bits=1408 stub=1 est=250 desc="W: KuznyechikDec::from(&enc).clone(): decrypt_block == oracle D, all round keys, all blocks (linearity instances of L^-1 assumed)"
 verif_harness! {
     name: kuz_soft_dec_rk_refclone,
     bytes: 160 + 16,
@@ -220,7 +200,7 @@ verif_harness! {
     stubs: [(crate::big_soft::backends::transform, stub_transform), (crate::big_soft::backends::sub_bytes, stub_sub_bytes)],
     prop: |inp| { k::w_dec_rk(inp, Route::RefClone, false, true) }
 }
-//@ harness name=kuz_soft_both_dec_rk_val prop=C07,C03,C12,C20 tier=thorough bits=1408 stub=1 est=200 desc="W: Kuznyechik::from(enc) (by value): decrypt_block == oracle D, all round keys, all blocks"
+//@ harness name=kuz_soft_both_dec_rk_val prop=C07,C03,C12,C20 tier=thorough bits=1408 stub=1 est=250 desc="W: Kuznyechik::from(enc) (by value): decrypt_block == oracle D, all round keys, all blocks (linearity instances of L^-1 assumed)"
 verif_harness! {
     name: kuz_soft_both_dec_rk_val,
     bytes: 160 + 16,
@@ -228,7 +208,7 @@ verif_harness! {
     stubs: [(crate::big_soft::backends::transform, stub_transform), (crate::big_soft::backends::sub_bytes, stub_sub_bytes)],
     prop: |inp| { k::w_dec_rk(inp, Route::Val, true, true) }
 }
-//@ harness name=kuz_soft_both_dec_rk_ref prop=C07,C03,C12,C20 tier=thorough bits=1408 stub=1 est=200 desc="W: Kuznyechik::from(&enc) (by reference): decrypt_block == oracle D, all round keys, all blocks"
+//@ harness name=kuz_soft_both_dec_rk_ref prop=C07,C03,C12,C20 tier=quick bits=1408 stub=1 est=250 desc="W: Kuznyechik::from(&enc) (by reference): decrypt_block == oracle D, all round keys, all blocks (linearity instances of L^-1 assumed)"
 verif_harness! {
     name: kuz_soft_both_dec_rk_ref,
     bytes: 160 + 16,
@@ -236,15 +216,7 @@ verif_harness! {
     stubs: [(crate::big_soft::backends::transform, stub_transform), (crate::big_soft::backends::sub_bytes, stub_sub_bytes)],
     prop: |inp| { k::w_dec_rk(inp, Route::Ref, true, true) }
 }
-//@ harness name=kuz_soft_both_dec_rk_valclone prop=C12,C20 tier=thorough bits=1408 stub=1 est=200 desc="W: Kuznyechik::from(enc).clone(): decrypt_block == oracle D, all round keys, all blocks"
-verif_harness! {
-    name: kuz_soft_both_dec_rk_valclone,
-    bytes: 160 + 16,
-    unwind: 70,
-    stubs: [(crate::big_soft::backends::transform, stub_transform), (crate::big_soft::backends::sub_bytes, stub_sub_bytes)],
-    prop: |inp| { k::w_dec_rk(inp, Route::ValClone, true, true) }
-}
-//@ harness name=kuz_soft_both_dec_rk_refclone prop=C12,C20 tier=thorough bits=1408 stub=1 est=200 desc="W: Kuznyechik::from(&enc).clone(): decrypt_block == oracle D, all round keys, all blocks"
+//@ harness name=kuz_soft_both_dec_rk_refclone prop=C12,C20 tier=thorough bits=1408 stub=1 est=250 desc="W: Kuznyechik::from(&enc).clone(): decrypt_block == oracle D, all round keys, all blocks (linearity instances of L^-1 assumed)"
 verif_harness! {
     name: kuz_soft_both_dec_rk_refclone,
     bytes: 160 + 16,
@@ -252,26 +224,10 @@ verif_harness! {
     stubs: [(crate::big_soft::backends::transform, stub_transform), (crate::big_soft::backends::sub_bytes, stub_sub_bytes)],
     prop: |inp| { k::w_dec_rk(inp, Route::RefClone, true, true) }
 }
-//@ harness name=kuz_soft_dec_key prop=C07,C03,C12,C20 tier=thorough bits=384 stub=1 est=300 mem=30 cap=3600 desc="W: KuznyechikDec::new(key).decrypt_block(b) == oracle D(key schedule(key), b), all keys, all blocks"
-verif_harness! {
-    name: kuz_soft_dec_key,
-    bytes: 48,
-    unwind: 70,
-    stubs: [(crate::big_soft::backends::transform, stub_transform), (crate::big_soft::backends::sub_bytes, stub_sub_bytes)],
-    prop: |inp| { k::w_dec_key(inp, 0, true) }
-}
-//@ harness name=kuz_soft_dec_key_both prop=C07,C03,C12,C20 tier=thorough bits=384 stub=1 est=300 mem=30 cap=3600 desc="W: Kuznyechik::new(key).decrypt_block(b) == oracle D(key schedule(key), b), all keys, all blocks"
-verif_harness! {
-    name: kuz_soft_dec_key_both,
-    bytes: 48,
-    unwind: 70,
-    stubs: [(crate::big_soft::backends::transform, stub_transform), (crate::big_soft::backends::sub_bytes, stub_sub_bytes)],
-    prop: |inp| { k::w_dec_key(inp, 1, true) }
-}
 
 // ---------------------------------------------------------------------------------------------------------- round trips
 
-//@ harness name=kuz_soft_rt_enc_dec prop=C01,C20 tier=thorough bits=1408 stub=1 est=200 desc="W: KuznyechikEnc encrypts, KuznyechikDec::from(&enc) decrypts: result == b, arbitrary round keys, all blocks (S, L uninterpreted inverse pairs)"
+//@ harness name=kuz_soft_rt_enc_dec prop=C01,C20 tier=thorough bits=1408 stub=1 est=250 desc="W: KuznyechikEnc encrypts, KuznyechikDec::from(&enc) decrypts: result == b, arbitrary round keys, all blocks (S, L uninterpreted inverse pairs, linearity instances of L^-1 assumed)"
 verif_harness! {
     name: kuz_soft_rt_enc_dec,
     bytes: 160 + 16,
@@ -279,7 +235,7 @@ verif_harness! {
     stubs: [(crate::big_soft::backends::transform, stub_transform), (crate::big_soft::backends::sub_bytes, stub_sub_bytes)],
     prop: |inp| { k::w_roundtrip_rk(inp, 0, true) }
 }
-//@ harness name=kuz_soft_rt_ed prop=C01,C20 tier=thorough bits=1408 stub=1 est=200 desc="W: Kuznyechik::from(&enc): dec(enc(b)) == b, arbitrary round keys, all blocks"
+//@ harness name=kuz_soft_rt_ed prop=C01,C20 tier=quick bits=1408 stub=1 est=250 desc="W: Kuznyechik::from(&enc): dec(enc(b)) == b, arbitrary round keys, all blocks (S, L uninterpreted inverse pairs, linearity instances of L^-1 assumed)"
 verif_harness! {
     name: kuz_soft_rt_ed,
     bytes: 160 + 16,
@@ -287,7 +243,7 @@ verif_harness! {
     stubs: [(crate::big_soft::backends::transform, stub_transform), (crate::big_soft::backends::sub_bytes, stub_sub_bytes)],
     prop: |inp| { k::w_roundtrip_rk(inp, 1, true) }
 }
-//@ harness name=kuz_soft_rt_de prop=C01,C20 tier=thorough bits=1408 stub=1 est=200 desc="W: Kuznyechik::from(&enc): enc(dec(b)) == b, arbitrary round keys, all blocks"
+//@ harness name=kuz_soft_rt_de prop=C01,C20 tier=thorough bits=1408 stub=1 est=250 desc="W: Kuznyechik::from(&enc): enc(dec(b)) == b, arbitrary round keys, all blocks (S, L uninterpreted inverse pairs, linearity instances of L^-1 assumed)"
 verif_harness! {
     name: kuz_soft_rt_de,
     bytes: 160 + 16,
